@@ -235,6 +235,11 @@ func codecKey(c codecCase, j, r int) map[string]any {
 	case "priv96mismatch":
 		raw = append(append([]byte{}, raw...), raw[32:]...)
 		raw[64+r%32] ^= 1 << uint(r%8)
+	case "priv96mid":
+		// embedded copy of the public key (bytes 32..64) replaced by another key's; trailing redundant copy is the true one
+		o, _ := vio.Key(fmt.Sprintf("codec/other/%d", j)).GetPublic().Raw()
+		tail := append([]byte{}, raw[32:]...)
+		raw = append(append(append([]byte{}, raw[:32]...), o...), tail...)
 	case "short":
 		raw = raw[:len(raw)-1]
 	case "wrongkeytype":
